@@ -16,6 +16,10 @@ type resA struct{ V int }
 type resB struct{ V [2]int64 }
 type resC struct{}
 type resLate struct{ V int8 }
+type resIface interface{ M() int }
+type resImpl struct{ V int }
+
+func (r *resImpl) M() int { return r.V }
 
 // resource scenario: three resource types, two candidate pointers each; operations through three access paths,
 // interleaved with an entity operation, an open query and Reset.
@@ -555,6 +559,19 @@ func resSweep(rp *runner.Report) {
 		w2.Resources().Remove(idA)
 		if !gp.Has() || gp.Get() != &pa || w2.Resources().Has(idA) {
 			panic("removing the resA resource disturbed the *resA resource")
+		}
+		// an interface type as resource type: the ID is that of the interface type, whatever the dynamic type of the value
+		var iv resIface = &resImpl{V: 9}
+		idI := ecs.AddResource[resIface](&w2, &iv)
+		if idI != ecs.ResourceID[resIface](&w2) || idI == ecs.ResourceID[resImpl](&w2) || idI == ecs.ResourceID[*resImpl](&w2) {
+			panic("AddResource of an interface-typed resource used another ID than ResourceID of that interface type")
+		}
+		if ecs.GetResource[resIface](&w2) != &iv || !w2.Resources().Has(idI) || w2.Resources().Has(ecs.ResourceID[*resImpl](&w2)) {
+			panic("interface-typed resource not found under its own type (or found under the dynamic type)")
+		}
+		gi := generic.NewResource[resIface](&w2)
+		if gi.Get() != &iv {
+			panic("generic.Resource of the interface type does not return the added value")
 		}
 	}); pv != nil {
 		viol("res:pointer-typed", fmt.Sprintf("resource types resA and *resA side by side: %v", pv))
